@@ -30,8 +30,8 @@ impl Property for C17 {
         }
     }
     fn rule(&self) -> &'static str {
-        "C02-style histories (source and rule edits, target removals, checksummed and always targets, \
-         failure-free builds) with redo-ood, redo-targets and redo-sources inserted at random points; \
+        "C02-style histories (source and rule edits, target removals, hand edits of generated targets \
+         followed by their removal, checksummed and always targets, failure-free builds) with redo-ood, redo-targets and redo-sources inserted at random points; \
          oracle per query: SeenModel lower bound (targets a redo-ifchange of them would rebuild) ⊆ \
          redo-ood ⊆ upper bound (must or may run if every checksummed target that needs rebuilding \
          changed), empty right after a successful full build; redo-targets ∩ redo-sources = ∅ and \
@@ -70,6 +70,7 @@ impl Property for C17 {
         sc.history.push(Step::Cmds(vec![keyed(Cmd::new(&["redo-ood"]))]));
         let mut ver = vec![0u32; g.sources.len()];
         let mut rv = 0u32;
+        let mut edits = 0u32;
         let steps = rng.range(3, 8);
         for _ in 0..steps {
             let r = rng.below(100);
@@ -93,8 +94,27 @@ impl Property for C17 {
                     rule.version = 50 + rv;
                     sc.history.push(Step::SetRule { path, rule: Some(rule) });
                 }
-            } else if r < 75 {
+            } else if r < 73 {
                 sc.history.push(Step::Remove { path: rng.pick(&g.targets).clone() });
+            } else if r < 80 {
+                // the user edits a generated target by hand (a later build records
+                // the override) and usually removes it again some steps later
+                let t = rng.pick(&g.targets[..g.targets.len() - 1]).clone();
+                edits += 1;
+                sc.history.push(Step::Write {
+                    path: t.clone(),
+                    bytes: format!("edited by hand {}\n", edits).into_bytes(),
+                });
+                if rng.chance(2, 3) {
+                    let c = redo_cmd(rng, "redo-ifchange", &[top.clone()], 2, 100);
+                    sc.history.push(Step::Cmds(vec![keyed(c)]));
+                    if rng.chance(1, 2) {
+                        sc.history.push(Step::Remove { path: t });
+                        sc.history.push(Step::Cmds(vec![keyed(Cmd::new(&["redo-ood"]))]));
+                        sc.history.push(Step::Cmds(vec![keyed(Cmd::new(&["redo-targets"]))]));
+                        sc.history.push(Step::Cmds(vec![keyed(Cmd::new(&["redo-sources"]))]));
+                    }
+                }
             } else {
                 let q = query(rng);
                 sc.history.push(Step::Cmds(vec![keyed(q)]));
@@ -154,7 +174,7 @@ impl Property for C17 {
                         let known: Vec<String> = db
                             .files
                             .iter()
-                            .filter(|(n, f)| f.0 && !f.1 && n.as_str() != "//ALWAYS")
+                            .filter(|(n, f)| f.0 && n.as_str() != "//ALWAYS")
                             .map(|(n, _)| n.clone())
                             .collect();
                         for t in &known {
